@@ -66,9 +66,21 @@ Theorem C11_delivery_example : exists s, run true init
   cur s = Some 1 /\ dead (gens s 1) = false /\ peerc (gens s 1) = false /\ pending s 1 /\ sp (gens s 0) = SCheck 1.
 Proof. exact ClientConnProofs.delivery_example. Qed.
 
-(* the liveness form, NOT PROVED (the model has no fairness notion; C11_delivery is its possibility half, the
-   latency monitor of the harness its run-time half): in every infinite run in which the current connection
-   stays healthy and the client's goroutines are not starved, the pending request reaches the peer *)
+(* inevitability form.  [internal l]: l is a step of one of the client's send/receive goroutines other than the
+   ticker firing and the idle close.  From a reachable state with a healthy current connection and a pending
+   request, under EVERY schedule of those goroutines (no fairness assumption): (a) at most [mu s] steps can be
+   taken (every such schedule terminates), and (b) once no goroutine can move ([quiescent]) the request has
+   reached the peer over the current connection, which is still healthy.  I.e. the request is delivered after
+   finitely many goroutine steps without any further call and without waiting for a timer. *)
+Theorem C11_delivery_inevitable : forall ls s c m ls' s', run true init ls = Some s ->
+  cur s = Some c -> dead (gens s c) = false -> peerc (gens s c) = false -> pending s m ->
+  Forall (fun l => internal l = true) ls' -> run true s ls' = Some s' ->
+  length ls' + mu s' <= mu s /\
+  (quiescent s' -> In m (got (gens s' c)) /\ cur s' = Some c /\ dead (gens s' c) = false /\ peerc (gens s' c) = false).
+Proof. exact ClientConnProofs.delivery_inevitable. Qed.
+
+(* what remains unproved is the same under interleaved external events (further calls, ticker firings) in an
+   infinite run, which needs a fairness assumption about the Go scheduler; stated, NOT PROVED *)
 Definition C11_delivery_liveness_statement : Prop :=
   forall (sched : nat -> label) (sts : nat -> st) c m,
     (exists ls, run true init ls = Some (sts 0)) ->
@@ -108,6 +120,7 @@ Print Assumptions C11_loss_is_local_step.
 Print Assumptions C11_redial_only_after_loss.
 Print Assumptions C11_no_write_to_dead.
 Print Assumptions C11_delivery.
+Print Assumptions C11_delivery_inevitable.
 Print Assumptions C11_call_after_known_close.
 Print Assumptions C11_delivery_example.
 Print Assumptions C11_spec_machine_sound.
